@@ -106,9 +106,14 @@ func (v *VisitorNode) Key() KeyType {
 	if v.Status.Kind == ClosureTracing && v.Status.TracingInfo != nil {
 		// The bound variable being traced is part of the state of the node: two different bound variables of the
 		// same closure must both be traced into the closure's body.
-		status += "#" + strconv.Itoa(v.Status.TracingInfo.Index)
-		if g := v.Status.TracingInfo.ClosureSummaryGraph; g != nil {
-			status += "@" + strconv.FormatUint(uint64(g.ID), 10)
+		// The stack of closures being traced is part of the state too (bounded, to keep the key space finite).
+		depth := 0
+		for info := v.Status.TracingInfo; info != nil && depth < 4; info = info.prev {
+			status += "#" + strconv.Itoa(info.Index)
+			if g := info.ClosureSummaryGraph; g != nil {
+				status += "@" + strconv.FormatUint(uint64(g.ID), 10)
+			}
+			depth++
 		}
 	}
 	return v.NodeWithTrace.Key() + "_" + status + "." + strings.Join(v.AccessPaths, "|")
